@@ -405,6 +405,39 @@ pub mod sstable {
 			Ok(parts)
 		}
 
+		/// byte regions of the file: (kind, offset, length); block regions include the 5-byte trailer
+		pub fn regions(&self) -> std::result::Result<Vec<(String, usize, usize)>, String> {
+			use crate::sstable::table::{BLOCK_CKSUM_LEN, BLOCK_COMPRESS_LEN};
+			let t = BLOCK_CKSUM_LEN + BLOCK_COMPRESS_LEN;
+			let n = self.bytes.len();
+			let mut out = Vec::new();
+			let footer = crate::sstable::table::Footer::decode(&self.bytes[n - 50..]).map_err(|e| e.to_string())?;
+			out.push(("footer".to_string(), n - 50, 50));
+			out.push(("metaindex".to_string(), footer.meta_index.offset(), footer.meta_index.size() + t));
+			out.push(("topindex".to_string(), footer.index.offset(), footer.index.size() + t));
+			let IndexType::Partitioned(ref index) = self.table.index_block;
+			for bh in index.blocks.iter() {
+				out.push(("partition".to_string(), bh.handle.offset(), bh.handle.size() + t));
+				let pb = index.load_block(bh).map_err(|e| e.to_string())?;
+				let mut pit = pb.iter().map_err(|e| e.to_string())?;
+				pit.seek_to_first().map_err(|e| e.to_string())?;
+				while pit.is_valid() {
+					let (h, _) = BlockHandle::decode(pit.value_bytes()).map_err(|e| e.to_string())?;
+					out.push(("data".to_string(), h.offset(), h.size() + t));
+					if !pit.advance().map_err(|e| e.to_string())? {
+						break;
+					}
+				}
+			}
+			if self.table.meta.properties.filter_size > 0 {
+				// the filter block is the only block between the last data block and the first index partition
+				let end_data = out.iter().filter(|r| r.0 == "data").map(|r| r.1 + r.2).max().unwrap_or(0);
+				out.push(("filter".to_string(), end_data, self.table.meta.properties.filter_size as usize + t));
+			}
+			out.sort_by_key(|r| r.1);
+			Ok(out)
+		}
+
 		/// `Table::get` for (user key, snapshot seq): the entry found, as (user key, seq, kind, value)
 		#[allow(clippy::type_complexity)]
 		pub fn get(&self, uk: &[u8], seq: u64) -> std::result::Result<Option<(Vec<u8>, u64, u8, Vec<u8>)>, String> {
